@@ -54,6 +54,15 @@ struct K_decr : DepsF {
 #include "decr_ref_count.body.inc"
 };
 
+// a dependent comes (the already-enabled branch of enable(), as a dependency: toplevel == false) and goes (decr_ref_count)
+struct K_lem : DepsF {
+  int disable(int fid) { return k_disable_stub(fid); }
+  int feature_id;
+  int en_body(bool dry_run, bool toplevel, feature_state *fs, feature *f)
+#include "enable_enabled.body.inc"
+  int body()
+#include "decr_ref_count.body.inc"
+};
 // state layout (ints): per feature k in 0..NF-1: st[4k+0]=enabled st[4k+1]=ref_count st[4k+2]=type st[4k+3]=available
 // target feature fid: rs[0..nrs) requires_self, ar[0..*nar) alternate_refs (in/out), rc[0..nrc) requires_children; nch children
 #define LOAD_STATES(f) \
@@ -84,4 +93,14 @@ extern "C" int k_decr_ref_count(int fid, int *st) {
   int r = f.body();
   STORE_STATES();
   return r;
+}
+
+extern "C" int k_toplevel_survives(int fid, int *st) {
+  size_t nch = 0;
+  K_lem f; LOAD_STATES(f); e_d[16] = fid; f.feature_id = fid;
+  int r1 = f.en_body(false, false, &fs[fid], &ft[fid]);
+  e_d[30] = fs[fid].ref_count;
+  int r2 = f.body();
+  STORE_STATES();
+  return r1 | r2;
 }
